@@ -4,6 +4,8 @@
  * plain array model; after every call: count, capacity relation, element size, full contents, and the
  * pointer the call returned are compared.  Library storage comes from the default allocator
  * (malloc/realloc), so ASan red zones begin at the first byte the container does not own.
+ * Every inline function and macro form of vec.h / buf.h (typed call macros, alias functions, typed accessors, all iteration
+ * macros and the a.h loop macros behind them) is exercised and judged against the same model: section PUBLIC SURFACE.
  */
 #define VF_PROP "C04"
 #include "vf_common.h"
@@ -30,6 +32,38 @@ typedef struct
 static size_t g_siz; /* element size for cmp/dtor callbacks */
 static uint32_t serial;
 static char const *KN = "vec";
+
+/* ---- public-surface forms (see the PUBLIC SURFACE section further down): state shared with the call wrappers */
+static int surf_on;           /* 1 inside the small case class: the wrappers may pick a macro / alias form of a call */
+static vf_rng FR;             /* form choices come from a stream of their own, so the operation histories are what they were before */
+static char const *form_used; /* macro / alias form used by the current call or walk: appended to the violation key */
+static int surf_alias;         /* 1: the call must go through a macro / alias form, not the plain function (surf_roundtrip) */
+static inline int surf_pick(int nforms) { return surf_on ? (int)vf_below(&FR, (uint64_t)nforms) : 0; }
+#define SURF_FORM(name)           \
+    do {                          \
+        form_used = name;         \
+        VF_COUNT("form/" name);   \
+    } while (0)
+/* typed element views: one struct per element size of the plan (alignment 1, no padding, sizeof == element size) */
+#define SURF_SIZES(X) X(1) X(2) X(3) X(4) X(7) X(8) X(12) X(16) X(24) X(33)
+#define SURF_TYPE(N) typedef struct { unsigned char b_[N]; } e##N;
+SURF_SIZES(SURF_TYPE)
+/* p = M(eN, args...) with the element type chosen by the element size z (M: a typed macro of vec.h / buf.h) */
+#define SURF_TYPED(p, z, M, ...)                        \
+    switch (z)                                          \
+    {                                                   \
+    case 1: p = M(e1, __VA_ARGS__); break;              \
+    case 2: p = M(e2, __VA_ARGS__); break;              \
+    case 3: p = M(e3, __VA_ARGS__); break;              \
+    case 4: p = M(e4, __VA_ARGS__); break;              \
+    case 7: p = M(e7, __VA_ARGS__); break;              \
+    case 8: p = M(e8, __VA_ARGS__); break;              \
+    case 12: p = M(e12, __VA_ARGS__); break;            \
+    case 16: p = M(e16, __VA_ARGS__); break;            \
+    case 24: p = M(e24, __VA_ARGS__); break;            \
+    case 33: p = M(e33, __VA_ARGS__); break;            \
+    default: p = M(unsigned char, __VA_ARGS__); break;  \
+    }
 
 /* ---- callbacks */
 /* The comparator contract is only the SIGN of the result.  Each case uses one of four ways of returning it (chosen from
@@ -85,8 +119,9 @@ static void mk_elem(vf_rng *r, seq *s, unsigned char *out, int key)
 static char const *opname = "op";
 #define FAIL(clause, ...)                                         \
     do {                                                          \
-        char key_[112];                                           \
-        snprintf(key_, sizeof(key_), "%s_%s/%s", KN, opname, clause); \
+        char key_[160];                                           \
+        /* <kind>_<op>/<clause>, plus /<form> when the call went through a macro / alias form of the headers */ \
+        snprintf(key_, sizeof(key_), "%s_%s/%s%s%s", KN, opname, clause, form_used ? "/" : "", form_used ? form_used : ""); \
         vf_viol(key_, __VA_ARGS__);                               \
         ok = 0;                                                   \
     } while (0)
@@ -184,16 +219,78 @@ static void cell(char const *op, seq *s, int cls, int full)
 }
 
 /* ---- library calls */
-static void *L_push_back(seq *s) { return s->is_buf ? a_buf_push_back(s->b) : a_vec_push_back(s->v); }
-static void *L_push_fore(seq *s) { return s->is_buf ? a_buf_push_fore(s->b) : a_vec_push_fore(s->v); }
-static void *L_pull_back(seq *s) { return s->is_buf ? a_buf_pull_back(s->b) : a_vec_pull_back(s->v); }
-static void *L_pull_fore(seq *s) { return s->is_buf ? a_buf_pull_fore(s->b) : a_vec_pull_fore(s->v); }
-static void *L_insert(seq *s, size_t i) { return s->is_buf ? a_buf_insert(s->b, i) : a_vec_insert(s->v, i); }
-static void *L_remove(seq *s, size_t i) { return s->is_buf ? a_buf_remove(s->b, i) : a_vec_remove(s->v, i); }
-static void *L_push_sort(seq *s, void const *k) { return s->is_buf ? a_buf_push_sort(s->b, k, cmp_elem) : a_vec_push_sort(s->v, k, cmp_elem); }
-static void L_sort(seq *s) { if (s->is_buf) { a_buf_sort(s->b, cmp_elem); } else { a_vec_sort(s->v, cmp_elem); } }
-static void L_sort_fore(seq *s) { if (s->is_buf) { a_buf_sort_fore(s->b, cmp_elem); } else { a_vec_sort_fore(s->v, cmp_elem); } }
-static void L_sort_back(seq *s) { if (s->is_buf) { a_buf_sort_back(s->b, cmp_elem); } else { a_vec_sort_back(s->v, cmp_elem); } }
+/* Calls that have a typed macro form `A_<KIND>_<OP>(T, ctx, ...)` in the headers: in the small case class a random half of the
+ * calls goes through the macro (T = the struct type of the element size, or `unsigned char const`), the other half through the
+ * function.  Same model update and same clauses either way; the form is counted (`form/<NAME>`) and appended to violation keys.
+ * The large case class (surf_on == 0) always takes the function. */
+#define L_WRAP(fname, PARAMS, VFN, BFN, VMAC, BMAC, ...)                                             \
+    static void *fname PARAMS                                                                        \
+    {                                                                                                \
+        void *p = NULL;                                                                              \
+        int const f = surf_alias ? 2 + (int)vf_below(&FR, 2) : surf_pick(4);                         \
+        form_used = NULL;                                                                            \
+        if (f < 2) { return s->is_buf ? BFN(s->b, ##__VA_ARGS__) : VFN(s->v, ##__VA_ARGS__); }      \
+        if (s->is_buf)                                                                               \
+        {                                                                                            \
+            SURF_FORM(#BMAC);                                                                        \
+            if (f == 2) { SURF_TYPED(p, s->siz, BMAC, s->b, ##__VA_ARGS__) }                          \
+            else { p = (void *)BMAC(unsigned char const, s->b, ##__VA_ARGS__); }                      \
+        }                                                                                            \
+        else                                                                                         \
+        {                                                                                            \
+            SURF_FORM(#VMAC);                                                                        \
+            if (f == 2) { SURF_TYPED(p, s->siz, VMAC, s->v, ##__VA_ARGS__) }                          \
+            else { p = (void *)VMAC(unsigned char const, s->v, ##__VA_ARGS__); }                      \
+        }                                                                                            \
+        return p;                                                                                    \
+    }
+/* push_back / pull_back additionally have the alias functions a_<kind>_push / a_<kind>_pull and their macros */
+#define L_WRAP_ALIAS(fname, VFN, BFN, VMAC, BMAC, VALIAS, BALIAS, VAMAC, BAMAC)                      \
+    static void *fname(seq *s)                                                                       \
+    {                                                                                                \
+        void *p = NULL;                                                                              \
+        int const f = surf_alias ? 4 + (int)vf_below(&FR, 4) : surf_pick(8);                         \
+        form_used = NULL;                                                                            \
+        if (f < 4) { return s->is_buf ? BFN(s->b) : VFN(s->v); }                                     \
+        if (s->is_buf)                                                                               \
+        {                                                                                            \
+            switch (f)                                                                               \
+            {                                                                                        \
+            case 4: SURF_FORM(#BMAC); SURF_TYPED(p, s->siz, BMAC, s->b) break;                       \
+            case 5: SURF_FORM(#BMAC); p = (void *)BMAC(unsigned char const, s->b); break;            \
+            case 6: SURF_FORM(#BALIAS); p = BALIAS(s->b); break;                                     \
+            default: SURF_FORM(#BAMAC);                                                              \
+                if (vf_below(&FR, 2)) { SURF_TYPED(p, s->siz, BAMAC, s->b) }                         \
+                else { p = (void *)BAMAC(unsigned char const, s->b); }                               \
+                break;                                                                               \
+            }                                                                                        \
+        }                                                                                            \
+        else                                                                                         \
+        {                                                                                            \
+            switch (f)                                                                               \
+            {                                                                                        \
+            case 4: SURF_FORM(#VMAC); SURF_TYPED(p, s->siz, VMAC, s->v) break;                       \
+            case 5: SURF_FORM(#VMAC); p = (void *)VMAC(unsigned char const, s->v); break;            \
+            case 6: SURF_FORM(#VALIAS); p = VALIAS(s->v); break;                                     \
+            default: SURF_FORM(#VAMAC);                                                              \
+                if (vf_below(&FR, 2)) { SURF_TYPED(p, s->siz, VAMAC, s->v) }                         \
+                else { p = (void *)VAMAC(unsigned char const, s->v); }                               \
+                break;                                                                               \
+            }                                                                                        \
+        }                                                                                            \
+        return p;                                                                                    \
+    }
+L_WRAP_ALIAS(L_push_back, a_vec_push_back, a_buf_push_back, A_VEC_PUSH_BACK, A_BUF_PUSH_BACK, a_vec_push, a_buf_push, A_VEC_PUSH, A_BUF_PUSH)
+L_WRAP_ALIAS(L_pull_back, a_vec_pull_back, a_buf_pull_back, A_VEC_PULL_BACK, A_BUF_PULL_BACK, a_vec_pull, a_buf_pull, A_VEC_PULL, A_BUF_PULL)
+L_WRAP(L_push_fore, (seq *s), a_vec_push_fore, a_buf_push_fore, A_VEC_PUSH_FORE, A_BUF_PUSH_FORE)
+L_WRAP(L_pull_fore, (seq *s), a_vec_pull_fore, a_buf_pull_fore, A_VEC_PULL_FORE, A_BUF_PULL_FORE)
+L_WRAP(L_insert, (seq *s, size_t i), a_vec_insert, a_buf_insert, A_VEC_INSERT, A_BUF_INSERT, i)
+L_WRAP(L_remove, (seq *s, size_t i), a_vec_remove, a_buf_remove, A_VEC_REMOVE, A_BUF_REMOVE, i)
+L_WRAP(L_push_sort, (seq *s, void const *k), a_vec_push_sort, a_buf_push_sort, A_VEC_PUSH_SORT, A_BUF_PUSH_SORT, k, cmp_elem)
+L_WRAP(L_search, (seq *s, void const *k), a_vec_search, a_buf_search, A_VEC_SEARCH, A_BUF_SEARCH, k, cmp_elem)
+static void L_sort(seq *s) { form_used = NULL; if (s->is_buf) { a_buf_sort(s->b, cmp_elem); } else { a_vec_sort(s->v, cmp_elem); } }
+static void L_sort_fore(seq *s) { form_used = NULL; if (s->is_buf) { a_buf_sort_fore(s->b, cmp_elem); } else { a_vec_sort_fore(s->v, cmp_elem); } }
+static void L_sort_back(seq *s) { form_used = NULL; if (s->is_buf) { a_buf_sort_back(s->b, cmp_elem); } else { a_vec_sort_back(s->v, cmp_elem); } }
 
 /* a push that must succeed iff there is room (buf) / always (vec) */
 static int do_push_at(seq *s, vf_rng *r, int where, size_t idx, int key)
@@ -329,6 +426,33 @@ static int check_sorted_insert(seq *s, unsigned char const (*old)[MAXSZ], size_t
     }
     FAIL("element-lost-or-reordered", "result is not the old sequence plus the new element");
     return 0;
+}
+
+/* search on a sorted sequence: found iff a live element has that key, and then a live element with that key is returned; returns "present" */
+static int do_search(seq *s, unsigned char key)
+{
+    unsigned char keyel[MAXSZ];
+    void *p;
+    int present = 0, ok = 1;
+    opname = "search";
+    memset(keyel, 0, sizeof(keyel));
+    keyel[0] = key;
+    for (size_t k = 0; k < s->num; ++k) { present |= s->e[k][0] == keyel[0]; }
+    vf_log("%s search key %u (num %zu)", KN, keyel[0], s->num);
+    p = L_search(s, keyel);
+    ++vf.evals;
+    VF_COUNT("search-finds-iff-present");
+    if (present != (p != NULL)) { FAIL("found-iff-present", "key %u present=%d but search returned %p", keyel[0], present, p); }
+    else if (p)
+    {
+        unsigned char *b = L_ptr(s);
+        if ((unsigned char *)p < b || (unsigned char *)p >= b + s->num * s->siz || *(unsigned char *)p != keyel[0])
+        {
+            FAIL("wrong-element", "search returned a pointer that is not a live element with that key");
+        }
+    }
+    (void)ok;
+    return present;
 }
 
 static seq S[2];
@@ -1577,12 +1701,464 @@ static void vf_case(uint64_t c, vf_rng *r)
     cmp_style = (int)(vf_hash64(vf.seed * 0x9E3779B97F4A7C15ULL + 0xC04, c) & 3);
     memset(cmp_calls, 0, sizeof(cmp_calls));
     vf_log("comparators of this case return %s", cmp_style_name[cmp_style]);
+    surf_on = 0;
+    form_used = NULL;
     if (is_large_case(c)) { large_case(c, r); }
-    else { small_case(c, r); }
+    else
+    {
+        /* macro / alias forms of the calls and the surface walks: small case class only, choices from a stream of their own */
+        vf_rng_seed(&FR, vf.seed, vf_hash_str("C04-forms"), c);
+        surf_on = 1;
+        small_case(c, r);
+        surf_on = 0;
+        form_used = NULL;
+    }
     VF_ADD("comparator-returns-minus-one-zero-plus-one", cmp_calls[0]);
     VF_ADD("comparator-returns-key-difference", cmp_calls[1]);
     VF_ADD("comparator-returns-int-min-int-max", cmp_calls[2]);
     VF_ADD("comparator-returns-varying-magnitude", cmp_calls[3]);
+}
+
+/* =====================================================================================================
+ * PUBLIC SURFACE of include/a/vec.h and include/a/buf.h, and of the loop macros of include/a/a.h they expand to
+ * (small case class only).  Everything the two headers define (grep `A_INTERN|A_EXTERN|#define`), and who judges it:
+ *
+ *   vec.h  inline functions (13)      used by
+ *     a_vec_ptr a_vec_siz a_vec_num a_vec_mem             check_state after every call (L_ptr/L_siz/L_num/L_mem); walk: a_vec_ptr against the ptr_ field
+ *     a_vec_at a_vec_of a_vec_top a_vec_end               op "access" (clauses at/of/top/end); walk: at every index incl. spare slots, mem, SIZE_MAX, negative offsets
+ *     a_vec_at_ a_vec_top_ a_vec_end_                     walk (direct calls; before only reached through at/top/end)
+ *     a_vec_push a_vec_pull                               L_push_back / L_pull_back, form 6 (alias of push_back / pull_back): same clauses as those; surf_roundtrip
+ *   vec.h  extern functions (21)      a_vec_new die ctor dtor swap setm setn setz sort sort_fore sort_back push_sort search insert remove push_fore
+ *                                     push_back pull_fore pull_back store erase: the operations of the histories (all covered before this section)
+ *   vec.h  function-like macros (26)
+ *     A_VEC_PUSH_BACK A_VEC_PUSH_FORE A_VEC_PULL_BACK A_VEC_PULL_FORE A_VEC_INSERT A_VEC_REMOVE A_VEC_PUSH_SORT A_VEC_SEARCH A_VEC_PUSH A_VEC_PULL
+ *                                                         the L_* call wrappers: a random half of the calls of the histories, T = struct of the element size / unsigned char const;
+ *                                                         surf_roundtrip after each walk (PUSH_BACK PULL_BACK PUSH PULL SEARCH, which the histories reach least often)
+ *     A_VEC_PTR A_VEC_AT_ A_VEC_AT A_VEC_OF A_VEC_TOP_ A_VEC_TOP A_VEC_END_ A_VEC_END      walk: typed accessors, T and T const, address and contents against the model
+ *     a_vec_forenum A_VEC_FORENUM a_vec_forenum_reverse A_VEC_FORENUM_REVERSE               walk: index sequence 0..n-1 / n-1..0, I = unsigned, size_t, int, unsigned short
+ *     a_vec_foreach A_VEC_FOREACH a_vec_foreach_reverse A_VEC_FOREACH_REVERSE               walk: element sequence, T / T const, S = * / *volatile (before: op "access", size 8, addresses only)
+ *   buf.h  inline functions (12)      a_buf_num mem siz ptr (check_state; walk) a_buf_at of top end (op "access"; walk) a_buf_at_ a_buf_top_ (walk) a_buf_push a_buf_pull (wrappers)
+ *   buf.h  extern functions (20)      a_buf_new die ctor dtor setm setn setz sort sort_fore sort_back push_sort search insert remove push_fore push_back pull_fore
+ *                                     pull_back store erase: the operations of the histories (all covered before this section)
+ *   buf.h  function-like macros (26)  a_buf_ (walk: both qualifier forms; surf_embedded) and the A_BUF_ / a_buf_for* counterparts of the 25 vec macros above except
+ *                                     A_VEC_END_ (there is no a_buf_end_): same judges.  Object-like A_BUF_DEF: surf_embedded (a caller struct that embeds the header).
+ *   a.h    loop macros (12)           a_forenum A_FORENUM a_forenum_reverse A_FORENUM_REVERSE (expanded by the vec and buf index loops), a_foreach A_FOREACH
+ *                                     a_foreach_reverse A_FOREACH_REVERSE (by the buf element loops), a_forsafe A_FORSAFE a_forsafe_reverse A_FORSAFE_REVERSE (by the
+ *                                     vec element loops); the walk also applies each of the 12 directly to (storage, count) of whichever container it is looking at.
+ *
+ * "forsafe" in a.h does not mean "the current element may be removed": a_forsafe is documented as a copy of a_foreach and differs only in not forming
+ * ptr + num when num is 0 (a vector that never allocated has a null storage pointer).  So no removal inside these loops; what is required of them is
+ * that they visit nothing on (null, 0) - every vector case walks its two still unallocated vectors - and otherwise exactly the model's sequence.
+ *
+ * A walk (after creation, after every 4th operation on the container operated on, and on both containers at the end of the history) takes the state the
+ * lock-step model has just been compared with and requires from EVERY form: the visited addresses are storage + k * size for k = 0..n-1 (n-1..0 in
+ * reverse), the bytes behind each visited pointer are the model's element k, and the number of visits is n.  The storage address and the capacity are read
+ * from the object's fields, not through the accessors under test.  Violation keys: <kind>_walk/<clause>/<form>; for calls: <kind>_<op>/<clause>/<FORM>;
+ * buf_embedded/<clause>/A_BUF_DEF.  Counters form/<name> (all listed under `require` in bin/props_C04.py): one per judged use of the form.
+ */
+/* Every observation form has an id; a site only records what the form produced (pointers, loop indices), one judge compares the
+ * record with the model.  (One record-and-call per site keeps the code small: a first version with the comparison expanded at every
+ * site and one instantiation per element size quintupled the compile time of this file.) */
+#define SURF_FORMS(X)                                                                                                              \
+    X(a_vec_ptr) X(a_vec_at_) X(a_vec_top_) X(a_vec_end_)                                                                          \
+    X(A_VEC_PTR) X(A_VEC_AT_) X(A_VEC_AT) X(A_VEC_OF) X(A_VEC_TOP_) X(A_VEC_TOP) X(A_VEC_END_) X(A_VEC_END)                        \
+    X(a_vec_forenum) X(A_VEC_FORENUM) X(a_vec_forenum_reverse) X(A_VEC_FORENUM_REVERSE)                                            \
+    X(a_vec_foreach) X(A_VEC_FOREACH) X(a_vec_foreach_reverse) X(A_VEC_FOREACH_REVERSE)                                            \
+    X(a_buf_) X(a_buf_ptr) X(a_buf_at_) X(a_buf_top_)                                                                              \
+    X(A_BUF_PTR) X(A_BUF_AT_) X(A_BUF_AT) X(A_BUF_OF) X(A_BUF_TOP_) X(A_BUF_TOP) X(A_BUF_END)                                      \
+    X(a_buf_forenum) X(A_BUF_FORENUM) X(a_buf_forenum_reverse) X(A_BUF_FORENUM_REVERSE)                                            \
+    X(a_buf_foreach) X(A_BUF_FOREACH) X(a_buf_foreach_reverse) X(A_BUF_FOREACH_REVERSE)                                            \
+    X(a_forenum) X(A_FORENUM) X(a_forenum_reverse) X(A_FORENUM_REVERSE)                                                            \
+    X(a_foreach) X(A_FOREACH) X(a_forsafe) X(A_FORSAFE)                                                                            \
+    X(a_foreach_reverse) X(A_FOREACH_REVERSE) X(a_forsafe_reverse) X(A_FORSAFE_REVERSE)
+#define SURF_ID(n) F_##n,
+enum { SURF_FORMS(SURF_ID) F_COUNT };
+#define SURF_NAME(n) "form/" #n,
+static char const *const surf_name[F_COUNT] = {SURF_FORMS(SURF_NAME)};
+static uint64_t surf_cnt[F_COUNT];
+
+#define REC_CAP (MAXE + 8) /* also stops a loop that does not end where it should */
+static void const *rec_p[REC_CAP];
+static size_t rec_i[REC_CAP];
+
+/* the record of one form: cnt entries; entry j must be element (reverse ? n-1-j : j) of the model - address, bytes and
+ * (index loops) the loop index - and there must be exactly n (expect) entries */
+static void surf_judge(seq *s, int form, unsigned char const *b, size_t cnt, int reverse, int with_index)
+{
+    int ok = 1;
+    size_t const n = s->num, z = s->siz;
+    ++surf_cnt[form];
+    form_used = surf_name[form] + 5;
+    for (size_t j = 0; j < cnt && j < n; ++j)
+    {
+        size_t const k = reverse ? n - 1 - j : j;
+        unsigned char const *const q = (unsigned char const *)rec_p[j];
+        if (with_index && rec_i[j] != k) { FAIL("index-sequence", "step %zu: loop index %zu where %zu is due (%zu elements)", j, rec_i[j], k, n); return; }
+        if (q != b + k * z) { FAIL("element-address", "step %zu: pointer %p, element %zu of %zu is at %p (storage %p, size %zu)", j, rec_p[j], k, n, (void const *)(b + k * z), (void const *)b, z); return; }
+        if (memcmp(q, s->e[k], z) != 0) { FAIL("element-contents", "step %zu: bytes behind the pointer differ from element %zu of the model (%02x.. vs %02x..)", j, k, q[0], s->e[k][0]); return; }
+    }
+    if (cnt != n) { FAIL("visit-count", "%zu%s visits for %zu elements", cnt, cnt >= REC_CAP ? " or more" : "", n); }
+    (void)ok;
+}
+static void surf_ptr(int form, void const *got, void const *want, char const *what)
+{
+    int ok = 1;
+    ++surf_cnt[form];
+    if (got != want)
+    {
+        form_used = surf_name[form] + 5;
+        FAIL("pointer", "%s: %p, expected %p", what, got, want);
+    }
+    (void)ok;
+}
+#define REC(ptr) { if (cnt >= REC_CAP) { break; } rec_p[cnt++] = (void const *)(ptr); }
+#define RECI(i, ptr) { if (cnt >= REC_CAP) { break; } rec_i[cnt] = (size_t)(i); rec_p[cnt++] = (void const *)(ptr); }
+#define JUDGE(F, rev, idx) { surf_judge(s, F_##F, b, cnt, rev, idx); cnt = 0; }
+#define SP(F, ptr, want, what) surf_ptr(F_##F, (void const *)(ptr), (void const *)(want), what);
+
+/* ---- part 1, per kind: index loops and accessors (T only names the type of the result: two instantiations each, no pointer arithmetic
+ * on T).  K = vec|buf, KU = VEC|BUF, C = the handle, b/m = storage and capacity read from the object's fields, n/z from the model. */
+#define SURF_WALK_INDEXED(K, KU, C, T, U)                                                                                     \
+    /* index loops; the body fetches the element as the example in the header does */                                        \
+    a_##K##_forenum(i, C) { RECI(i, a_##K##_at(C, i)) }                                                                       \
+    JUDGE(a_##K##_forenum, 0, 1)                                                                                              \
+    A_##KU##_FORENUM(unsigned, iu, C) { RECI(iu, A_##KU##_AT(T, C, iu)) }                                                      \
+    JUDGE(A_##KU##_FORENUM, 0, 1)                                                                                             \
+    A_##KU##_FORENUM(size_t, iz, C) { RECI(iz, a_##K##_at_(C, iz)) }                                                           \
+    JUDGE(A_##KU##_FORENUM, 0, 1)                                                                                             \
+    A_##KU##_FORENUM(int, ii, C) { RECI(ii, A_##KU##_AT_(U const, C, (size_t)ii)) }                                            \
+    JUDGE(A_##KU##_FORENUM, 0, 1)                                                                                             \
+    a_##K##_forenum_reverse(i, C) { RECI(i, a_##K##_at(C, i)) }                                                               \
+    JUDGE(a_##K##_forenum_reverse, 1, 1)                                                                                      \
+    A_##KU##_FORENUM_REVERSE(unsigned, iu, C) { RECI(iu, A_##KU##_AT(U const, C, iu)) }                                        \
+    JUDGE(A_##KU##_FORENUM_REVERSE, 1, 1)                                                                                     \
+    A_##KU##_FORENUM_REVERSE(size_t, iz, C) { RECI(iz, a_##K##_at_(C, iz)) }                                                   \
+    JUDGE(A_##KU##_FORENUM_REVERSE, 1, 1)                                                                                     \
+    A_##KU##_FORENUM_REVERSE(unsigned short, ih, C) { RECI(ih, A_##KU##_AT_(T, C, ih)) }                                       \
+    JUDGE(A_##KU##_FORENUM_REVERSE, 1, 1)                                                                                     \
+    /* accessors on every live element (address and contents) */                                                             \
+    for (k = 0; k < n; ++k) { REC(a_##K##_at_(C, k)) }                                                                        \
+    JUDGE(a_##K##_at_, 0, 0)                                                                                                  \
+    for (k = 0; k < n; ++k) { REC(A_##KU##_AT_(T, C, k)) }                                                                    \
+    JUDGE(A_##KU##_AT_, 0, 0)                                                                                                 \
+    for (k = 0; k < n; ++k) { REC(A_##KU##_AT(U const, C, k)) }                                                               \
+    JUDGE(A_##KU##_AT, 0, 0)                                                                                                  \
+    for (k = 0; k < n; ++k) { REC(A_##KU##_OF(T, C, (a_diff)k)) }                                                             \
+    JUDGE(A_##KU##_OF, 0, 0)                                                                                                  \
+    for (k = 0; k < n; ++k) { REC(A_##KU##_OF(U const, C, (a_diff)k - (a_diff)n)) } /* negative offsets count from the end */ \
+    JUDGE(A_##KU##_OF, 0, 0)                                                                                                  \
+    /* spare slots (address only), first index past the capacity, sentinels */                                               \
+    for (k = n; k < m; ++k)                                                                                                  \
+    {                                                                                                                        \
+        SP(A_##KU##_AT, A_##KU##_AT(T, C, k), b + k * z, "spare slot")                                                        \
+        SP(A_##KU##_AT_, A_##KU##_AT_(U const, C, k), b + k * z, "spare slot")                                                \
+        SP(A_##KU##_OF, A_##KU##_OF(T, C, (a_diff)k), b + k * z, "spare slot")                                                \
+    }                                                                                                                        \
+    SP(A_##KU##_AT, A_##KU##_AT(T, C, m), NULL, "index == capacity")                                                          \
+    SP(A_##KU##_AT, A_##KU##_AT(U const, C, SIZE_MAX), NULL, "index SIZE_MAX")                                                \
+    SP(A_##KU##_OF, A_##KU##_OF(T, C, (a_diff)m), NULL, "offset == capacity")                                                 \
+    SP(A_##KU##_OF, A_##KU##_OF(U, C, -(a_diff)n - 1), NULL, "offset -(count+1)")                                             \
+    SP(a_##K##_ptr, a_##K##_ptr(C), b, "storage")                                                                             \
+    SP(A_##KU##_PTR, A_##KU##_PTR(T, C), b, "storage")                                                                        \
+    SP(A_##KU##_PTR, A_##KU##_PTR(U const, C), b, "storage")                                                                  \
+    SP(A_##KU##_TOP, A_##KU##_TOP(T, C), n ? b + (n - 1) * z : NULL, "top")                                                   \
+    SP(A_##KU##_TOP, A_##KU##_TOP(U const, C), n ? b + (n - 1) * z : NULL, "top")                                             \
+    SP(A_##KU##_END, A_##KU##_END(T, C), b ? b + n * z : NULL, "end")                                                         \
+    SP(A_##KU##_END, A_##KU##_END(U const, C), b ? b + n * z : NULL, "end")                                                   \
+    if (n)                                                                                                                   \
+    {                                                                                                                        \
+        SP(a_##K##_top_, a_##K##_top_(C), b + (n - 1) * z, "top")                                                             \
+        SP(A_##KU##_TOP_, A_##KU##_TOP_(T, C), b + (n - 1) * z, "top")                                                        \
+        SP(A_##KU##_TOP_, A_##KU##_TOP_(U const, C), b + (n - 1) * z, "top")                                                  \
+    }                                                                                                                        \
+    /* the four index loops of a.h applied directly to the count */                                                          \
+    a_forenum(size_t, j, n) { RECI(j, b + j * z) }                                                                            \
+    JUDGE(a_forenum, 0, 1)                                                                                                    \
+    a_forenum(unsigned, j, n) { RECI(j, b + j * z) }                                                                          \
+    JUDGE(a_forenum, 0, 1)                                                                                                    \
+    A_FORENUM(unsigned, iu, n) { RECI(iu, b + iu * z) }                                                                       \
+    JUDGE(A_FORENUM, 0, 1)                                                                                                    \
+    A_FORENUM(size_t, iz, n) { RECI(iz, b + iz * z) }                                                                         \
+    JUDGE(A_FORENUM, 0, 1)                                                                                                    \
+    a_forenum_reverse(size_t, j, n) { RECI(j, b + j * z) }                                                                    \
+    JUDGE(a_forenum_reverse, 1, 1)                                                                                            \
+    a_forenum_reverse(int, j, n) { RECI(j, b + (size_t)j * z) }                                                               \
+    JUDGE(a_forenum_reverse, 1, 1)                                                                                            \
+    A_FORENUM_REVERSE(int, ii, n) { RECI(ii, b + (size_t)ii * z) }                                                            \
+    JUDGE(A_FORENUM_REVERSE, 1, 1)                                                                                            \
+    A_FORENUM_REVERSE(size_t, iz, n) { RECI(iz, b + iz * z) }                                                                 \
+    JUDGE(A_FORENUM_REVERSE, 1, 1)
+
+#define SURF_INDEXED_LOCALS               \
+    size_t const n = s->num, z = s->siz;  \
+    size_t cnt = 0, k, iz;                \
+    unsigned iu;                          \
+    unsigned short ih;                    \
+    int ii;
+
+static void surf_indexed_vec(seq *s)
+{
+    a_vec *const v = s->v;
+    unsigned char *const b = (unsigned char *)v->ptr_; /* fields read directly: not through the forms under test */
+    size_t const m = v->mem_;
+    SURF_INDEXED_LOCALS
+    SURF_WALK_INDEXED(vec, VEC, v, unsigned char, e33)
+    if (b) /* a_vec_end_ forms ptr_ + siz_ * num_ without looking at ptr_ */
+    {
+        SP(a_vec_end_, a_vec_end_(v), b + n * z, "end")
+        SP(A_VEC_END_, A_VEC_END_(unsigned char, v), b + n * z, "end")
+        SP(A_VEC_END_, A_VEC_END_(e33 const, v), b + n * z, "end")
+    }
+}
+static void surf_indexed_buf(seq *s)
+{
+    a_buf *const v = s->b;
+    unsigned char *const b = (unsigned char *)(v + 1); /* the payload follows the header object (address formed here, not by a_buf_ptr) */
+    size_t const m = v->mem_;
+    SURF_INDEXED_LOCALS
+    SURF_WALK_INDEXED(buf, BUF, v, unsigned char, e33)
+    SP(a_buf_, a_buf_(*, b - sizeof(a_buf)), v, "cast of the header address")
+    SP(a_buf_, a_buf_(const *, (void const *)v), v, "cast of the header address")
+    SP(a_buf_, b + a_buf_(const *, (void const *)v)->num_, b + n, "storage + count read through the cast")
+}
+
+/* ---- part 2: the element loops do pointer arithmetic on T, so T must be a type of exactly the element size.  One instantiation serves
+ * every size with a variably modified T (unsigned char [size]); sizes 4 and 12 are walked a second time with ordinary struct types (and op
+ * "access" uses uint64_t for size 8).  Instantiating all ten struct types cost 3 s of compile time, which the quick tier does not have.
+ * Loop variable types: T and T const with S = *, T with S = *volatile; upper-case forms with T * and T const * variables declared outside. */
+#define SURF_WALK_ELEMS(NAME, ELEMTYPE)                                                               \
+    static void NAME(seq *s)                                                                          \
+    {                                                                                                 \
+        typedef ELEMTYPE;                                                                             \
+        size_t const n = s->num;                                                                      \
+        size_t cnt = 0;                                                                               \
+        unsigned char *b;                                                                             \
+        T *p0, *p1;                                                                                   \
+        T const *q0, *q1;                                                                             \
+        if (s->is_buf)                                                                                \
+        {                                                                                             \
+            a_buf *const v = s->b;                                                                    \
+            b = (unsigned char *)(v + 1);                                                             \
+            a_buf_foreach(T, *, it, v) { REC(it) }                                                    \
+            JUDGE(a_buf_foreach, 0, 0)                                                                \
+            a_buf_foreach(T const, *, it, v) { REC(it) }                                              \
+            JUDGE(a_buf_foreach, 0, 0)                                                                \
+            a_buf_foreach(T, *volatile, it, v) { REC(it) }                                            \
+            JUDGE(a_buf_foreach, 0, 0)                                                                \
+            A_BUF_FOREACH(T *, p0, p1, v) { REC(p0) }                                                 \
+            JUDGE(A_BUF_FOREACH, 0, 0)                                                                \
+            A_BUF_FOREACH(T const *, q0, q1, v) { REC(q0) }                                           \
+            JUDGE(A_BUF_FOREACH, 0, 0)                                                                \
+            a_buf_foreach_reverse(T, *, it, v) { REC(it) }                                            \
+            JUDGE(a_buf_foreach_reverse, 1, 0)                                                        \
+            a_buf_foreach_reverse(T const, *, it, v) { REC(it) }                                      \
+            JUDGE(a_buf_foreach_reverse, 1, 0)                                                        \
+            a_buf_foreach_reverse(T, *volatile, it, v) { REC(it) }                                    \
+            JUDGE(a_buf_foreach_reverse, 1, 0)                                                        \
+            A_BUF_FOREACH_REVERSE(T *, p0, p1, v) { REC(p0) }                                         \
+            JUDGE(A_BUF_FOREACH_REVERSE, 1, 0)                                                        \
+            A_BUF_FOREACH_REVERSE(T const *, q0, q1, v) { REC(q0) }                                   \
+            JUDGE(A_BUF_FOREACH_REVERSE, 1, 0)                                                        \
+        }                                                                                             \
+        else                                                                                          \
+        {                                                                                             \
+            a_vec *const v = s->v;                                                                    \
+            b = (unsigned char *)v->ptr_;                                                             \
+            a_vec_foreach(T, *, it, v) { REC(it) }                                                    \
+            JUDGE(a_vec_foreach, 0, 0)                                                                \
+            a_vec_foreach(T const, *, it, v) { REC(it) }                                              \
+            JUDGE(a_vec_foreach, 0, 0)                                                                \
+            a_vec_foreach(T, *volatile, it, v) { REC(it) }                                            \
+            JUDGE(a_vec_foreach, 0, 0)                                                                \
+            A_VEC_FOREACH(T *, p0, p1, v) { REC(p0) }                                                 \
+            JUDGE(A_VEC_FOREACH, 0, 0)                                                                \
+            A_VEC_FOREACH(T const *, q0, q1, v) { REC(q0) }                                           \
+            JUDGE(A_VEC_FOREACH, 0, 0)                                                                \
+            a_vec_foreach_reverse(T, *, it, v) { REC(it) }                                            \
+            JUDGE(a_vec_foreach_reverse, 1, 0)                                                        \
+            a_vec_foreach_reverse(T const, *, it, v) { REC(it) }                                      \
+            JUDGE(a_vec_foreach_reverse, 1, 0)                                                        \
+            a_vec_foreach_reverse(T, *volatile, it, v) { REC(it) }                                    \
+            JUDGE(a_vec_foreach_reverse, 1, 0)                                                        \
+            A_VEC_FOREACH_REVERSE(T *, p0, p1, v) { REC(p0) }                                         \
+            JUDGE(A_VEC_FOREACH_REVERSE, 1, 0)                                                        \
+            A_VEC_FOREACH_REVERSE(T const *, q0, q1, v) { REC(q0) }                                   \
+            JUDGE(A_VEC_FOREACH_REVERSE, 1, 0)                                                        \
+        }                                                                                             \
+        /* the eight element loops of a.h applied directly to (storage, count) */                     \
+        if (b) /* a_foreach / a_foreach_reverse form ptr + num and ptr - 1: not for the null storage of an unallocated vector */ \
+        {                                                                                             \
+            a_foreach(T, *, it, b, n) { REC(it) }                                                     \
+            JUDGE(a_foreach, 0, 0)                                                                    \
+            a_foreach(T const, *, it, b, n) { REC(it) }                                               \
+            JUDGE(a_foreach, 0, 0)                                                                    \
+            A_FOREACH(T *, p0, p1, b, n) { REC(p0) }                                                  \
+            JUDGE(A_FOREACH, 0, 0)                                                                    \
+            A_FOREACH(T const *, q0, q1, b, n) { REC(q0) }                                            \
+            JUDGE(A_FOREACH, 0, 0)                                                                    \
+            a_foreach_reverse(T, *, it, b, n) { REC(it) }                                             \
+            JUDGE(a_foreach_reverse, 1, 0)                                                            \
+            a_foreach_reverse(T const, *, it, b, n) { REC(it) }                                       \
+            JUDGE(a_foreach_reverse, 1, 0)                                                            \
+            A_FOREACH_REVERSE(T *, p0, p1, b, n) { REC(p0) }                                          \
+            JUDGE(A_FOREACH_REVERSE, 1, 0)                                                            \
+            A_FOREACH_REVERSE(T const *, q0, q1, b, n) { REC(q0) }                                    \
+            JUDGE(A_FOREACH_REVERSE, 1, 0)                                                            \
+        }                                                                                             \
+        a_forsafe(T, *, it, b, n) { REC(it) }                                                         \
+        JUDGE(a_forsafe, 0, 0)                                                                        \
+        a_forsafe(T const, *, it, b, n) { REC(it) }                                                   \
+        JUDGE(a_forsafe, 0, 0)                                                                        \
+        A_FORSAFE(T *, p0, p1, b, n) { REC(p0) }                                                      \
+        JUDGE(A_FORSAFE, 0, 0)                                                                        \
+        A_FORSAFE(T const *, q0, q1, b, n) { REC(q0) }                                                \
+        JUDGE(A_FORSAFE, 0, 0)                                                                        \
+        a_forsafe_reverse(T, *, it, b, n) { REC(it) }                                                 \
+        JUDGE(a_forsafe_reverse, 1, 0)                                                                \
+        a_forsafe_reverse(T const, *, it, b, n) { REC(it) }                                           \
+        JUDGE(a_forsafe_reverse, 1, 0)                                                                \
+        A_FORSAFE_REVERSE(T *, p0, p1, b, n) { REC(p0) }                                              \
+        JUDGE(A_FORSAFE_REVERSE, 1, 0)                                                                \
+        A_FORSAFE_REVERSE(T const *, q0, q1, b, n) { REC(q0) }                                        \
+        JUDGE(A_FORSAFE_REVERSE, 1, 0)                                                                \
+        (void)p1;                                                                                     \
+        (void)q1;                                                                                     \
+    }
+SURF_WALK_ELEMS(surf_elems_any, unsigned char T[s->siz]) /* every element size: T is an array type of the run-time element size */
+SURF_WALK_ELEMS(surf_elems_4, e4 T)                      /* ordinary struct types for two of the sizes */
+SURF_WALK_ELEMS(surf_elems_12, e12 T)
+
+static void surf_walk(seq *s)
+{
+    static int id[F_COUNT];
+    static int have_ids;
+    char const *const save = opname;
+    opname = "walk";
+    vf_log("%s walk: every accessor and iteration form against the model (num %zu mem %zu siz %zu)", KN, s->num, L_mem(s), s->siz);
+    if (s->is_buf) { surf_indexed_buf(s); } else { surf_indexed_vec(s); }
+    surf_elems_any(s);
+    if (s->siz == 4) { surf_elems_4(s); }
+    if (s->siz == 12) { surf_elems_12(s); }
+    if (!have_ids)
+    {
+        for (int f = 0; f < F_COUNT; ++f) { id[f] = vf_counter_id(surf_name[f]); }
+        have_ids = 1;
+    }
+    for (int f = 0; f < F_COUNT; ++f)
+    {
+        vf.ctr[id[f]].n += surf_cnt[f];
+        surf_cnt[f] = 0;
+    }
+    ++vf.evals;
+    VF_COUNT("surface-walk");
+    if (s->num == 0 && !s->is_buf && !a_vec_ptr(s->v)) { VF_COUNT("surface-walk-null-storage"); }
+    form_used = NULL;
+    opname = save;
+}
+
+/* The alias forms a_<kind>_push / a_<kind>_pull and A_<KIND>_PUSH / A_<KIND>_PULL are one form in eight of the push_back / pull_back operations,
+ * and pull_back is rare; so after each walk the last element is pulled and pushed back through them or the _BACK macros (same clauses as the operations: returned
+ * pointer owned, removed element intact and parked past the live range, count, complete state).  The container ends in the state it was in
+ * (a pull does not change the capacity, the push re-uses the freed slot), so the history is not disturbed. */
+static int surf_roundtrip(seq *s)
+{
+    int ok = 1;
+    unsigned char el[MAXSZ];
+    char const *const save = opname;
+    size_t const num = s->num;
+    void *p;
+    if (num == 0) { return 1; }
+    memcpy(el, s->e[num - 1], MAXSZ);
+    g_siz = s->siz;
+    surf_alias = 1;
+    opname = "pull_back";
+    vf_log("%s pull (alias form of pull_back, num %zu) and push the element back", KN, num);
+    ok = do_pull(s, 0, 0);
+    if (ok)
+    {
+        opname = "push_back";
+        p = L_push_back(s);
+        ++vf.evals;
+        if (!p) { FAIL("unexpected-null", "returned null with num %zu mem %zu", num - 1, L_mem(s)); }
+        else if (check_owned(s, p, "new element"))
+        {
+            memcpy(p, el, s->siz);
+            model_insert(s, num - 1, el);
+            ok = check_state(s);
+        }
+        else { ok = 0; }
+    }
+    if (ok && s->sorted && vf_below(&FR, 4) == 0) { do_search(s, (unsigned char)vf_below(&FR, 26)); } /* A_<KIND>_SEARCH: the search operation is rare */
+    surf_alias = 0;
+    form_used = NULL;
+    opname = save;
+    return ok;
+}
+
+/* A caller structure that embeds the buffer header with A_BUF_DEF (what the macro is for) and is followed directly by its payload:
+ * the constructor, the typed push / pull macros and the loops must place element k at payload + k * size, refuse the element that
+ * does not fit, and leave the bytes after the payload alone. */
+static void surf_embedded(size_t siz)
+{
+    struct
+    {
+        A_BUF_DEF;
+        unsigned char d[6 * MAXSZ + 16];
+    } x;
+    size_t const z = siz ? siz : 1, cap = 1 + (size_t)vf_below(&FR, 6);
+    unsigned char el[8][MAXSZ];
+    char const *const save = opname;
+    int ok = 1;
+    size_t cnt = 0;
+    void *p;
+    opname = "embedded";
+    form_used = "A_BUF_DEF";
+    VF_COUNT("form/A_BUF_DEF");
+    vf_log("buf embedded: struct { A_BUF_DEF; payload } constructed with a_buf_ctor(%zu, %zu)", siz, cap);
+    memset(x.d, 0xC3, sizeof(x.d));
+    a_buf_ctor(&x, siz, cap);
+    if (x.num_ != 0 || x.mem_ != cap || x.siz_ != z) { FAIL("header-fields", "num_ %zu mem_ %zu siz_ %zu after a_buf_ctor(%zu, %zu)", x.num_, x.mem_, x.siz_, siz, cap); }
+    if ((void *)a_buf_(*, &x) != (void *)&x || a_buf_(const *, &x)->mem_ != cap) { FAIL("cast", "a_buf_ does not give the header back"); }
+    if (A_BUF_PTR(unsigned char, &x) != x.d) { FAIL("payload-address", "A_BUF_PTR %p, payload member at %p", (void *)A_BUF_PTR(unsigned char, &x), (void *)x.d); }
+    for (size_t k = 0; k <= cap && ok; ++k)
+    {
+        for (size_t j = 0; j < z; ++j) { el[k][j] = (unsigned char)(0x11 * (k + 1) + j); }
+        switch (k % 3)
+        {
+        case 0: p = A_BUF_PUSH_BACK(unsigned char, &x); break;
+        case 1: p = A_BUF_PUSH(unsigned char, &x); break;
+        default: p = a_buf_push(&x); break;
+        }
+        if (k == cap) { if (p) { FAIL("accepted-although-full", "push %zu into capacity %zu returned %p", k, cap, p); } }
+        else if (p != (void *)(x.d + k * z)) { FAIL("element-address", "push %zu returned %p, payload + %zu is %p", k, p, k * z, (void *)(x.d + k * z)); }
+        else { memcpy(p, el[k], z); }
+    }
+    if (ok && x.num_ != cap) { FAIL("count", "num_ %zu after %zu pushes", x.num_, cap); }
+    if (ok)
+    {
+        a_buf_forenum(i, &x)
+        {
+            if (a_buf_at(&x, i) != (void *)(x.d + i * z) || memcmp(x.d + i * z, el[i], z) != 0) { FAIL("element-contents", "element %zu of the embedded buffer", (size_t)i); break; }
+            ++cnt;
+        }
+        if (ok && cnt != cap) { FAIL("visit-count", "%zu visits for %zu elements", cnt, cap); }
+    }
+    if (ok)
+    {
+        p = (cap & 1) ? A_BUF_PULL(unsigned char, &x) : a_buf_pull(&x);
+        if (p != (void *)(x.d + (cap - 1) * z) || memcmp(p, el[cap - 1], z) != 0) { FAIL("removed-element-not-intact", "pull returned %p", p); }
+    }
+    for (size_t j = cap * z; j < sizeof(x.d) && ok; ++j)
+    {
+        if (x.d[j] != 0xC3) { FAIL("write-past-capacity", "byte %zu after the payload of %zu bytes was overwritten", j - cap * z, cap * z); }
+    }
+    g_siz = z;
+    dtor_n = 0;
+    a_buf_dtor(&x, dtor_elem);
+    if (ok && dtor_n != cap - 1) { FAIL("dtor-call-count", "destructor called %zu times for %zu elements", dtor_n, cap - 1); }
+    ++vf.evals;
+    form_used = NULL;
+    opname = save;
 }
 
 static void small_case(uint64_t c, vf_rng *r)
@@ -1592,6 +2168,7 @@ static void small_case(uint64_t c, vf_rng *r)
     size_t siz = sizes[vf_below(r, 11)];
     int nops = 30 + (int)vf_below(r, 50);
     int alive = 1;
+    seq *last = &S[0];
     KN = is_buf ? "buf" : "vec";
     serial = (uint32_t)(c * 1000);
     for (int k = 0; k < 2; ++k)
@@ -1604,12 +2181,27 @@ static void small_case(uint64_t c, vf_rng *r)
         vf_sample("history %" PRIu64 ": two %s of element size %zu (0 means 1)%s, %d ops from {push/pull both ends, insert, remove, store, erase, setn, setm, setz, sort, sort_fore, sort_back, push_sort, search, swap, accessors} with index classes incl. num, num+1, SIZE_MAX, -num; model compared after every call",
                   c, is_buf ? "a_buf" : "a_vec", siz, is_buf ? " capacities 0..40" : "", nops);
     }
+    if (alive)
+    {
+        /* both containers while still empty (vector: storage pointer still null), and for buffers the embedded-header use */
+        surf_walk(&S[0]);
+        surf_walk(&S[1]);
+        if (is_buf) { surf_embedded(siz); }
+    }
     for (int i = 0; i < nops && alive; ++i)
     {
         seq *s = &S[vf_below(r, 2)];
         int op = (int)vf_below(r, 24);
         int cls = 0, full;
         size_t idx;
+        if (i && i % 4 == 0) /* every 4th operation: the container last operated on, through every form */
+        {
+            surf_walk(last);
+            alive = surf_roundtrip(last);
+            if (!alive) { break; }
+        }
+        last = s;
+        form_used = NULL;
         g_siz = s->siz;
         full = L_num(s) == L_mem(s);
         switch (op)
@@ -1909,7 +2501,7 @@ static void small_case(uint64_t c, vf_rng *r)
                     vf_log("%s push_sort on a full buffer (num %zu mem %zu)", KN, L_num(s), L_mem(s));
                     VF_COUNT("buf-refuses-when-full");
                     ++vf.evals;
-                    if (a_buf_push_sort(s->b, k0, cmp_elem)) { FAIL("accepted-although-full", "push_sort returned non-null with num == mem"); alive = 0; break; }
+                    if (L_push_sort(s, k0)) { FAIL("accepted-although-full", "push_sort returned non-null with num == mem"); alive = 0; break; }
                     alive = check_state(s);
                 }
                 break;
@@ -1960,28 +2552,9 @@ static void small_case(uint64_t c, vf_rng *r)
         case 21:
         {
             /* search on a sorted sequence */
-            unsigned char keyel[MAXSZ];
-            void *p;
-            int present = 0, ok = 1;
+            int present;
             if (!s->sorted) { break; }
-            opname = "search";
-            memset(keyel, 0, sizeof(keyel));
-            keyel[0] = (unsigned char)vf_below(r, 26);
-            for (size_t k = 0; k < s->num; ++k) { present |= s->e[k][0] == keyel[0]; }
-            vf_log("%s search key %u (num %zu)", KN, keyel[0], s->num);
-            p = s->is_buf ? a_buf_search(s->b, keyel, cmp_elem) : a_vec_search(s->v, keyel, cmp_elem);
-            ++vf.evals;
-            VF_COUNT("search-finds-iff-present");
-            if (present != (p != NULL)) { FAIL("found-iff-present", "key %u present=%d but search returned %p", keyel[0], present, p); }
-            else if (p)
-            {
-                unsigned char *b = L_ptr(s);
-                if ((unsigned char *)p < b || (unsigned char *)p >= b + s->num * s->siz || *(unsigned char *)p != keyel[0])
-                {
-                    FAIL("wrong-element", "search returned a pointer that is not a live element with that key");
-                }
-            }
-            (void)ok;
+            present = do_search(s, (unsigned char)vf_below(r, 26));
             cell(opname, s, present, 0);
             break;
         }
@@ -2071,6 +2644,12 @@ static void small_case(uint64_t c, vf_rng *r)
             }
             break;
         }
+    }
+    form_used = NULL;
+    for (int k = 0; k < 2 && alive; ++k) /* end of the history: both containers through every form */
+    {
+        surf_walk(&S[k]);
+        alive = surf_roundtrip(&S[k]);
     }
     for (int k = 0; k < 2 && alive; ++k) /* a container whose state is already refuted is not driven further */
     {
